@@ -1,9 +1,11 @@
 """C01 add-on: Read Device Identification responses, paged or not, are self-consistent on the wire (Props/C01_mei.v)."""
-GENERATORS = ["pdu"]
-PROP_FILES = ["C01_mei"]
+GENERATORS = ["pdu", "bits"]
+PROP_FILES = ["C01_mei", "C01_bits"]
 MANIFEST_ADD = {"text": "Add-on Props/C01_mei.v (C01_mei_wire_consistent): every Read Device Identification response the encoder "
                         "model emits - paged or not, scalar or list-valued objects - carries exactly as many objects as its "
-                        "object-count byte says and nothing else; the same predicate judges what the real encoder emitted.",
+                        "object-count byte says and nothing else; the same predicate judges what the real encoder emitted."
+                        " Add-on Props/C01_bits.v: pack_bitstring / unpack_bitstring matched statement by statement, their "
+                        "constants regenerated, the interpreter of the generated code proved equal to the spec's LSB-first packing.",
                 "note": ""}
 
 
